@@ -120,6 +120,8 @@ def run(ctx):
         homogeneity(ctx, d2, prog, f, cname, mname, rel)
     d5 = ctx.rule('D5', 'the residual summand has the shape of modified Raoult\'s law', floor=10)
     raoult_shape(ctx, d5)
+    d7 = ctx.rule('D7', 'bracketing solver calls receive the residual of each end of the bracket at that end', floor=6)
+    bracket_residuals(ctx, d7)
     d6 = ctx.rule('D6', 'solver brackets: [Tmin, Tmax] from the domain, [Pmin, Pmax] = [min Psat(Tmin), max Psat(Tmax)]', floor=7)
     bracket_rule(ctx, d6)
     # ---- D4
@@ -276,6 +278,48 @@ def _subst(form, mapping):
                 term = term * base
         out = out + term
     return out
+
+
+def bracket_residuals(ctx, d7):
+    """flx.IQ_interpolation(f, x0, x1, y0, y1, ...) is handed the residuals at the two ends of the bracket: y0 = f(x0, ...), y1 = f(x1, ...).
+    Where the two values are calls of f (directly, or through a local bound once), the first argument of each call must be the end of the
+    bracket at the same position: with the residuals exchanged the interpolation starts from a bracket whose signs are inverted and returns
+    an end point.  Calls whose residuals are not visible calls of f are not judged."""
+    prog = ctx.prog
+    n = 0
+    for rel in (BP, DP):
+        for f in prog.all_functions():
+            if f.module.rel != rel:
+                continue
+            fn = prog.normal_form(f)
+            defs = {}
+            for st in walk_no_nested(fn):
+                if isinstance(st, ast.Assign):
+                    for t in st.targets:
+                        for x in ast.walk(t):
+                            if isinstance(x, ast.Name) and isinstance(x.ctx, ast.Store):
+                                defs.setdefault(x.id, []).append(st.value if isinstance(t, ast.Name) else None)
+
+            def res(e):
+                if isinstance(e, ast.Name) and len(defs.get(e.id, [])) == 1 and defs[e.id][0] is not None:
+                    return defs[e.id][0]
+                return e
+            for c in walk_no_nested(fn):
+                if not (isinstance(c, ast.Call) and src(c.func).endswith('IQ_interpolation') and len(c.args) >= 5):
+                    continue
+                fexp, x0, x1, y0, y1 = c.args[:5]
+                ys = [res(y0), res(y1)]
+                if not all(isinstance(y, ast.Call) and src(y.func) == src(fexp) and y.args for y in ys):
+                    continue
+                n += 1
+                got = [src(res(ys[0].args[0])), src(res(ys[1].args[0]))]
+                want = [src(res(x0)), src(res(x1))]
+                if got == want:
+                    d7.ok(f.qualname, 'IQ_interpolation(f, %s, %s, f(%s, ...), f(%s, ...)): each residual belongs to its end of the bracket' % (src(x0), src(x1), got[0], got[1]), f, c)
+                else:
+                    d7.fail(f.qualname, 'bracket-residuals-exchanged', 'IQ_interpolation(%s, %s, %s, %s, %s, ...): the residual handed over for %s is %s(%s, ...) and the one for %s is %s(%s, ...)'
+                            % (src(fexp), src(x0), src(x1), src(y0), src(y1), src(x0), src(fexp), got[0], src(x1), src(fexp), got[1]), f, c)
+    return n
 
 
 def _coefficient_signatures(prog):
